@@ -559,6 +559,8 @@ class _Gen:
         elif k == "adjust":
             if op[3] == 0 or op[3] in self.dead or op[2] in self.dead:
                 return
+            if op[2] == op[3] and op[3] > len(self.base):
+                return      # a new directory moved into itself: KeyError in the limbo bookkeeping (not modelled)
             self.par[op[3]] = op[2]
         elif k == "delete":
             if 1 <= op[1] <= len(self.base):
